@@ -199,6 +199,48 @@ def constructor_grid(rep):
     print(f"  constructor grid: {tot} configurations, {acc} accepted", flush=True)
 
 
+BULK = [("log8", [2, 2, 1000, 15]), ("log16", [2, 2, 100000, 1023]), ("log8", [1, 1, 300, 250]),
+        ("log16", [1, 1, 70000, 15])]
+
+
+def bulk_case(kind, args, v, seed):
+    """ONE add of multiplicity v >> max_count on a fresh log sketch (first batch of draws all
+    advancing, then the seeded generator): the key must end exactly AT the ceiling - not
+    beyond it, not wrapped around to a small counter."""
+    from . import c06
+
+    seed_fn, _ = c06.jit_helpers()
+    sk = SK.make(kind, *args)
+    seed_fn(seed + 11)
+    sk.rand_nums[:] = 0.0
+    sk.rand_ptr = 0
+    sk.add(b"bulk", v)
+    est = float(sk.query(b"bulk"))
+    top = SK.make(kind, *args)
+    top.cms[:, :] = top.uint_maxval
+    want = float(top.query(b"bulk"))
+    return est != want, {"estimate": est, "ceiling": want,
+                         "counters": [int(x) for x in sk.cms.ravel()[:4]]}
+
+
+def bulk_to_ceiling(rep):
+    n = 0
+    for kind, args in BULK:
+        for v in (2**31, 2**32 - 1, 2**32, 2**32 + 3, 2**40):
+            bad, obs = bulk_case(kind, args, v, rep.seed)
+            n += 1
+            rep.evals()
+            rep.nontrivial(("bulk", kind, tuple(args), v))
+            if bad:
+                rep.violation({"what": "bulk", "kind_": kind, "args": args, "v": v, "seed": rep.seed},
+                              f"{kind}{args}: one add(key, {v}) leaves the estimate at "
+                              f"{obs['estimate']}, not at the ceiling {obs['ceiling']} "
+                              f"(counters {obs['counters']})")
+    rep.add("transitions", n)
+    rep.add("traces_validated_against_impl", n)
+    rep.part("bulk_to_ceiling", cases=n)
+
+
 def run(rep):
     from ..pool import run_tasks
 
@@ -211,6 +253,7 @@ def run(rep):
         print(f"  {name}: D={st['depth']} states={st['states']} trans={st['transitions']} "
               f"nontrivial={st['nontrivial']} {st['wall_s']}s", flush=True)
     constructor_grid(rep)
+    bulk_to_ceiling(rep)
     rep.set("closed", False)
     rep.set(
         "rule",
@@ -222,6 +265,8 @@ def run(rep):
 
 
 def replay(case):
+    if case.get("what") == "bulk":
+        return bulk_case(case["kind_"], case["args"], case["v"], case.get("seed", 0))
     if case.get("what") == "ctor-order":
         bad = False
         seen = {}
